@@ -611,18 +611,18 @@ Print Assumptions c04_signed_oracle_tsig_set_aside.
 
 (* ---- the SIGNED TSIG record and the limit (pkg-sproof; Proofs/SignFinishP.v, SignSerP.v, SignTopP.v) ----
    c04_tsig_within_limit: c04_tsig_within_limit_partial WITHOUT [unverified]: for every verifier and every hmac whose
-   output is an octet string of the algorithm's output size: whenever the response of the abstract server model
+   output has the algorithm's output size (the only fact about HMAC used; Proofs/SignShapeP.v, SignLenP.v): whenever the response of the abstract server model
    carries TSIG settings - unsigned (BADKEY / BADSIG / FORMERR) or SIGNING (BADTIME with 6 octets of other data;
    verified and answered NOTIMP / REFUSED / SERVFAIL / FORMERR) - the extended composed model returns octets no
    longer than the response's limit; the one remaining class (a verified request answered out of a Loaded zone) is
    still the abstract response [RAbs wa] (Model/ServerWT.v: handle_query_t).  The record written is never larger
    than the reservation signed_len = key name + algorithm name + 26 + output size (+ 6 for BADTIME) the pre-scan
    subtracted from the available space, so no spurious TC and no overflow of the limit. *)
-From QV Require Import Proofs.SignTopP.
+From QV Require Import Proofs.SignTopP Proofs.SignLenP.
 From QV Require Model.TsigMsg.
 
 Theorem c04_tsig_within_limit : forall hmac zones negttl answer verify cfg buf req wa t,
-  (forall a k d, length (hmac a k d) = TsigMsg.output_size a) -> (forall a k d, wf_bytes (hmac a k d)) ->
+  (forall a k d, length (hmac a k d) = TsigMsg.output_size a) ->
   ServerP.wf_cfg cfg -> length buf = Server.c_buflen cfg -> (Server.c_now cfg < 281474976710656)%N -> wf_bytes req ->
   Server.handle_message answer verify cfg req = Ok (Some wa) -> Server.w_tsig wa = Some t ->
   handle_message_wt hmac zones negttl answer verify cfg buf req = Ok (Some (RAbs wa)) \/
@@ -630,10 +630,8 @@ Theorem c04_tsig_within_limit : forall hmac zones negttl answer verify cfg buf r
     handle_message_wt hmac zones negttl answer verify cfg buf req = Ok (Some (ROctets len b)) /\
     len <= Server.w_limit wa /\ ServerLimitP.lim_ok cfg req wa.
 Proof.
-  intros hmac zones negttl answer verify cfg buf req wa t Hl Hw Hcfg Hbuf Hnow Hwf HA Et.
-  destruct (tsig_response_limit_all hmac Hl Hw zones negttl answer verify cfg buf Hcfg Hbuf Hnow req wa t Hwf HA Et)
-    as [E|(len & b & f & E & Hle & L & _)]; [left; exact E|right].
-  exists len, b. auto.
+  intros hmac zones negttl answer verify cfg buf req wa t Hl Hcfg Hbuf Hnow Hwf HA Et.
+  exact (tsig_response_limit_len hmac Hl zones negttl answer verify cfg buf Hcfg Hbuf Hnow req wa t Hwf HA Et).
 Qed.
 
 Print Assumptions c04_tsig_within_limit.
